@@ -10,8 +10,11 @@
      xls   D1904 OMIT1904 JUNK0 JUNK1 JUNK2 JUNK3 TAIL SHEETS XTIS NAMES
              -> hex Workbook stream|model|spec|known|legal   (sheet positions are relative to TAIL)
      xlsr  HEX                                   M only
-     ods   JUNK NJUNK OMITNAMES STYLES SHEETS CONTENTS NAMES
+     ods   JUNK NJUNK OMITNAMES STYLES SHEETS CONTENTS NAMES AFTERS LNAMES LOPTS
              -> content wire|model|spec|known|legal
+           per sheet, ';' separated: CONTENTS / AFTERS = event wire of the table's children before /
+           after its named-expressions element; LNAMES = the sheet-scoped names (items like NAMES);
+           LOPTS = <omit 0|1>@<event wire inside the element>
      odsr  WIRE                                  M only
    Strings: hex of UTF-8.  Lists: ',' separated, "-" = empty list; fields of an item: ':'.
    attrs: k=v&k=v (hex), "-" = none.  Event wire (tools/textgen.py): tokens separated by ' ':
@@ -201,30 +204,40 @@ let run_xls = function
 
 (* ---------- ods ---------- *)
 let run_ods = function
-  | [junk; njunk; omitnames; styles; sheets; contents; names] ->
+  | [junk; njunk; omitnames; styles; sheets; contents; names; afters; lnames; lopts] ->
     let sh = List.map fields (items sheets) in
     let nm = List.map fields (items names) in
-    let cont = Array.of_list (if contents = "" || contents = "-" then []
-                              else String.split_on_char ';' contents) in
-    let wb = { wb_sheets = List.map meta_of sh;
-               wb_names = List.map (fun f -> (hx f.(0), hx f.(1))) nm;
-               wb_1904 = false } in
+    let per_sheet x = Array.of_list (if x = "" || x = "-" then [] else String.split_on_char ';' x) in
+    let cont = per_sheet contents and aft = per_sheet afters and lnm = per_sheet lnames
+    and lop = per_sheet lopts in
+    let get a i = if i < Array.length a then a.(i) else "-" in
+    let name_of f = (hx f.(0), hx f.(1)) in
+    let choice_of f = { on_expr = bool_of f.(2); on_swap = bool_of f.(3);
+                        on_pre = parse_attrs f.(4); on_post = parse_attrs f.(5) } in
+    let lfields i = List.map fields (items (get lnm i)) in
+    let wb = { ow_sheets = List.mapi (fun i f -> (meta_of f, List.map name_of (lfields i))) sh;
+               ow_names = List.map name_of nm } in
     let c = { oc_styles = List.map (fun it -> let f = fields it in
                                      (hx f.(0), (match f.(1) with "t" -> Some true | "f" -> Some false
                                                                 | _ -> None))) (items styles);
               oc_sheets = List.mapi (fun i f ->
+                  let (omit, lj) =
+                    match String.split_on_char '@' (get lop i) with
+                    | [o; w] -> (bool_of o, unwire w)
+                    | _ -> (true, []) in
                   { os_style = (if f.(3) = "-" then None else Some (hx f.(3)));
                     os_pre = parse_attrs f.(4); os_post = parse_attrs f.(5);
                     os_swap = bool_of f.(6);
-                    os_content = (if i < Array.length cont then unwire cont.(i) else []) }) sh;
-              oc_names = List.map (fun f ->
-                  { on_expr = bool_of f.(2); on_swap = bool_of f.(3);
-                    on_pre = parse_attrs f.(4); on_post = parse_attrs f.(5) }) nm;
+                    os_content = unwire (get cont i);
+                    os_lnames = List.map choice_of (lfields i);
+                    os_lnames_junk = lj; os_omit_lnames = omit;
+                    os_after = unwire (get aft i) }) sh;
+              oc_names = List.map choice_of nm;
               oc_junk = unwire junk; oc_names_junk = unwire njunk;
               oc_omit_names = bool_of omitnames } in
     let ev = ods_events c wb in
     String.concat "|" [ wire ev; show_outcome (ods_parse_content ev);
-                        show_parsed wb.wb_sheets wb.wb_names false;
+                        show_parsed (ow_metas wb) (ow_all_names wb) false;
                         "-"; b01 (ods_legal c wb) ]
   | _ -> "bad-args"
 
